@@ -283,8 +283,14 @@ def to_xir(prog: Program, **kwargs) -> xir.Program:
                     )
                     xir_prog.add_declaration(gate_decl)
 
+            op_params = list(cmd.op.p)
+            if getattr(cmd.op, "dagger", False):
+                # XIR has no syntax for the inverse of a gate; the inverse of a
+                # gate is the same gate with the first parameter negated
+                op_params[0] = -op_params[0]
+
             params = []
-            for i, a in enumerate(cmd.op.p):
+            for i, a in enumerate(op_params):
                 if sfpar.par_is_symbolic(a):
                     # try to evaluate symbolic parameter
                     try:
